@@ -139,10 +139,21 @@ pub struct RunOut {
 }
 
 pub fn client_uuid(seed: u64, c: usize) -> Uuid {
-    Rng::new(seed).fork(0xC11E47 + c as u64).uuid()
+    // every other client id is an arbitrary 128-bit value (any version nibble): still well-formed
+    let mut r = Rng::new(seed).fork(0xC11E47 + c as u64);
+    if c % 2 == 1 {
+        r.uuid_any()
+    } else {
+        r.uuid()
+    }
 }
 pub fn fresh_uuid(seed: u64, n: usize) -> Uuid {
-    Rng::new(seed).fork(0xF4E5_0000 + n as u64).uuid()
+    let mut r = Rng::new(seed).fork(0xF4E5_0000 + n as u64);
+    if n % 2 == 1 {
+        r.uuid_any()
+    } else {
+        r.uuid()
+    }
 }
 
 /// How foreign ids are resolved in a C09 solo run: the concrete requests of the full run.
